@@ -81,7 +81,22 @@ def main():
         explanation=EXPLANATION)
 
 EXPLANATION = (
-    'see DESIGN-notes/charset.md')
+    'Proved (Props/C20.lean). Finite quantifier, over the CodecFacts table regenerated each run (every codec name known to Python, gettext '
+    'or the tool): ascii_compatible_law, unknown_law, portable_any_law, proposal_law (the proposal is a row classified portable with the '
+    'same codecs.lookup name), model_matches_tool, portable_law_partial; portable_law_refuted (KOI8-T, known finding, replayed on the real '
+    'code each run). For all names: proposal_portable, proposal_sound. Pins: repertoire_pin, gettext_list_pin, tables_pin, '
+    'codec_search_extra. For all tables / byte strings / texts: charmap_decode_total, charmap_encode_total, charmap_roundtrip, '
+    'extra_charmaps_lossless, extra_charmaps_agree_iconv (shipped tables = the system iconv\'s), koi8t_table_roundtrip. For every iconv '
+    'behaviour: iconv_told_le_allocated; under the assumed POSIX contract of iconv(3): iconv_loop_terminates, iconv_loop_returns_produced, '
+    'iconv_loop_error_span (+ the encode versions). unrepresentable_iff, check_unrepresentable_iff, check_classification, check_total. '
+    'TEST-LEVEL ONLY (named): glibc honouring the contract (observed on every call of the loop-real stream); totality / round trip / '
+    'agreement with iconv for EUC-TW and the iconv-backed KOI8-T (falsifier: every single byte, lead x sampled trail bytes, plane '
+    'sequences, truncations; exhaustive two-byte units in thorough); "same codec name => decodes every byte sequence identically" '
+    '(probed with 416 byte strings per proposal); memory safety of the ctypes calls cannot be exhibited by a model. '
+    'FALSE of the code / environment and recorded: KOI8-T not portable (open), EUC-TW four-byte plane-1 form does not round-trip (open, '
+    'inherent to glibc\'s EUC-TW), charset=idna crashed get_unrepresentable_characters (fixed in /repo cf40a53). '
+    'OUTSTANDING: a structural Lean model of EUC-TW (euctw_roundtrip_partial / _refuted) is not written; the refutation is shown on the '
+    'real code only.')
 
 if __name__ == '__main__':
     common.main_wrapper(main)
